@@ -18,6 +18,7 @@ RULE = (
     "gamma incl. 0, u, dt over ten decades, random complex sparse Laplacian) x retry ladder (adaptive on/off, max retries 0..10, multiplier 0.01..0.9) for the update as a whole; non-trivial = contains an exact-zero, "
     "a |psi|<1e-100 or a |psi|>1 site, or is refused, or has a site within 1e-3 relative of the discriminant boundary; "
     "distinct by spec hash"
+    "; one case in forty is a whole generated simulation (with / without screening) in which every Euler update and every solver update is recorded and compared with the equation built from the state at step n"
 )
 ASSUMPTIONS = [
     "numpy.longdouble is the x87 80-bit format (checked at import); the reference is trusted at that precision",
